@@ -684,6 +684,8 @@ func main() {
 				map[string]any{"case": c, "leaf_subject": leaf.Cert.Subject.String()})
 		}
 	}, r.PanicViolation("verifier.Verify"))
+	sameKeyOtherSubject(r)
+	dottedDecimalIdentities(r)
 	r.RequireAtLeast("authenticity-pass", int64(n/4))
 	r.RequireAtLeast("authenticity-fail", int64(n/4))
 	r.Extra["completeness_note"] = "events completeness:* count cases where the library is stricter than the statement requires; they are reported, not judged"
@@ -699,4 +701,90 @@ func overlap(ids [][]av) bool {
 		}
 	}
 	return false
+}
+
+// sameKeyOtherSubject: two certificates of ONE key (same subject key identifier, as after a re-issue under another name)
+// with different subjects, verified one after the other in this process and on one verifier, in both orders: each is
+// matched against ITS OWN subject - the pinned one passes, the other fails, whatever was verified before.
+func sameKeyOtherSubject(r *lib.Run) {
+	ctx := context.Background()
+	root := lib.Mint(nil, lib.CertSpec{CN: "c04-samekey-root", Kind: "ca", KeyIdx: 7})
+	desc := lib.Desc("application/vnd.oci.image.manifest.v1+json", []byte("c04 same key"))
+	for k := 0; k < 6; k++ {
+		spec := lib.KeySpecs[k%len(lib.KeySpecs)]
+		pinned := lib.Mint(root, lib.CertSpec{Kind: "codesign", KeySpec: spec, KeyIdx: 1, Subject: &pkix.Name{CommonName: "release signer", Organization: []string{"Org"}, Country: []string{"US"}, Province: []string{"WA"}}})
+		other := lib.Mint(root, lib.CertSpec{Kind: "codesign", KeySpec: spec, KeyIdx: 1, Subject: &pkix.Name{CommonName: "release signer", Organization: []string{"Other Org"}, Country: []string{"US"}, Province: []string{"WA"}}})
+		doc := lib.OCIPolicy(trustpolicy.SignatureVerification{VerificationLevel: "strict"}, []string{"ca:x"}, []string{"x509.subject:C=US,ST=WA,O=Org"})
+		v, err := verifier.NewVerifierWithOptions(lib.NewMemTS().Put("ca:x", root.Cert), verifier.VerifierOptions{OCITrustPolicy: doc, RevocationCodeSigningValidator: lib.OKRev{}, RevocationTimestampingValidator: lib.OKRev{}})
+		if err != nil {
+			panic(err)
+		}
+		order := []*lib.Ent{pinned, other, pinned, other}
+		if k%2 == 1 {
+			order = []*lib.Ent{other, pinned, other}
+		}
+		for step, e := range order {
+			format := lib.Formats[(k+step)%2]
+			sig := lib.MustCoreSign(lib.SignSpec{Format: format, Payload: lib.Payload(desc), Signer: e})
+			_, verr := v.Verify(ctx, desc, sig, notation.VerifierVerifyOptions{ArtifactReference: "r.io/a@" + desc.Digest.String(), SignatureMediaType: format})
+			r.Eval(fmt.Sprintf("same-key|%d|%d", k, step))
+			r.Event("verifications-of-certificates-sharing-a-key")
+			want := e == pinned
+			if (verr == nil) != want {
+				kind := "pass-without-match"
+				if want {
+					kind = "fail-despite-match"
+				}
+				r.Violation(map[string]string{"kind": kind, "shape": "same-key-other-subject"}, fmt.Sprintf("key %s, step %d: the leaf with subject %q verified=%v under the identity C=US,ST=WA,O=Org (another certificate of the same key, subject %q, was verified before or after it): %v", spec, step+1, e.Cert.Subject.String(), verr == nil, map[bool]*lib.Ent{true: other, false: pinned}[want].Cert.Subject.String(), verr), nil)
+			}
+		}
+	}
+}
+
+// dottedDecimalIdentities: identities that spell their attribute TYPES as dotted-decimal object identifiers (RFC 4514
+// allows it) with the leaf's values permuted among the types (O <-> OU, CN <-> L, ...): whether or not a tree
+// understands the dotted form, the leaf does not carry those attributes with those values - refused as a policy, or no match.
+func dottedDecimalIdentities(r *lib.Run) {
+	ctx := context.Background()
+	root := lib.Mint(nil, lib.CertSpec{CN: "c04-dotted-root", Kind: "ca", KeyIdx: 7})
+	desc := lib.Desc("application/vnd.oci.image.manifest.v1+json", []byte("c04 dotted"))
+	leaf := lib.Mint(root, lib.CertSpec{Kind: "codesign", KeyIdx: 2, Subject: &pkix.Name{CommonName: "Build Bot", Locality: []string{"Seattle"}, Organization: []string{"Release"}, OrganizationalUnit: []string{"Acme Rockets"}, Country: []string{"US"}, Province: []string{"WA"}, StreetAddress: []string{"1 Main St"}, PostalCode: []string{"98101"}}})
+	oid := map[string]string{"CN": "2.5.4.3", "C": "2.5.4.6", "L": "2.5.4.7", "ST": "2.5.4.8", "STREET": "2.5.4.9", "O": "2.5.4.10", "OU": "2.5.4.11", "POSTALCODE": "2.5.4.17"}
+	val := map[string]string{"CN": "Build Bot", "C": "US", "L": "Seattle", "ST": "WA", "STREET": "1 Main St", "O": "Release", "OU": "Acme Rockets", "POSTALCODE": "98101"}
+	swaps := [][2]string{{"O", "OU"}, {"CN", "L"}, {"O", "CN"}, {"OU", "L"}, {"STREET", "POSTALCODE"}, {"O", "STREET"}, {"OU", "POSTALCODE"}, {"ST", "L"}}
+	for si, sw := range swaps {
+		for _, dottedAll := range []bool{true, false} {
+			var parts []string
+			for _, t := range []string{"C", "ST", "O", "OU", "CN", "L", "STREET", "POSTALCODE"} {
+				v := val[t]
+				if t == sw[0] {
+					v = val[sw[1]]
+				} else if t == sw[1] {
+					v = val[sw[0]]
+				}
+				name := t
+				if dottedAll || t == sw[0] || t == sw[1] {
+					name = oid[t]
+				}
+				parts = append(parts, name+"="+v)
+			}
+			id := "x509.subject:" + strings.Join(parts, ",")
+			for li, ids := range [][]string{{id}, {"x509.subject:C=US,ST=WA,O=Somebody Else", id}} {
+				r.Eval(fmt.Sprintf("dotted|%d|%v|%d", si, dottedAll, li))
+				r.Event("identities-with-dotted-decimal-types-and-permuted-values")
+				doc := lib.OCIPolicy(trustpolicy.SignatureVerification{VerificationLevel: "strict"}, []string{"ca:x"}, ids)
+				v, err := verifier.NewVerifierWithOptions(lib.NewMemTS().Put("ca:x", root.Cert), verifier.VerifierOptions{OCITrustPolicy: doc, RevocationCodeSigningValidator: lib.OKRev{}, RevocationTimestampingValidator: lib.OKRev{}})
+				if err != nil {
+					r.Event("policy-rejected")
+					continue
+				}
+				format := lib.Formats[(si+li)%2]
+				sig := lib.MustCoreSign(lib.SignSpec{Format: format, Payload: lib.Payload(desc), Signer: leaf})
+				if _, verr := v.Verify(ctx, desc, sig, notation.VerifierVerifyOptions{ArtifactReference: "r.io/a@" + desc.Digest.String(), SignatureMediaType: format}); verr == nil {
+					r.Violation(map[string]string{"kind": "pass-without-match", "shape": "identity-dotted-decimal-types-permuted-values"},
+						fmt.Sprintf("the leaf %q verified under the identity %q, which assigns the values of %s and %s to each other's types", leaf.Cert.Subject.String(), id, sw[0], sw[1]), nil)
+				}
+			}
+		}
+	}
 }
